@@ -128,6 +128,18 @@ def random_pairs(rng, n, dom):
             yield "full-vs-sparse", values_on(rng, np.ones(d, bool), "random", dom), x
 
 
+def huge_pairs(rng, n):
+    """scale-free metrics on rows at the top of the float32 range: every entry and every square is finite in float32 (|v| = 2^63,
+    v^2 = 2^126) but a float32 running sum of six squares is not; the norms must be accumulated in double precision on both sides"""
+    for d in (6, 9, 16):
+        for i in range(n):
+            x = f32(rng.choice([-1.0, 1.0], size=d) * 2.0 ** 63)
+            if i % 2:
+                x = f32(x * (rng.uniform(size=d) < 0.8)); x[:6] = np.float32(2.0 ** 63)
+            y = f32(rng.standard_normal(d) * (rng.uniform(size=d) < 0.8)); y[0] = np.float32(1.5)
+            yield "huge", x, y          # (two huge rows are not generated: their float32 dot product overflows in both kernels' shared helper)
+
+
 # --------------------------------------------------------------------------
 # one comparison
 # --------------------------------------------------------------------------
@@ -351,6 +363,10 @@ def run(res, tier, seed, search):
         ot = name in OT_NAMES
         gens = [pattern_pairs(rng, min(maxdim, 3) if ot else maxdim, dom),
                 random_pairs(rng, max(nrand // 3, 1) if ot else nrand, dom)]
+        if name == "cosine":
+            # (correlation is not generated here: its sparse kernel centres in float32 and already loses such rows on the
+            # pinned tree - the documented range limit of DESIGN 12.4)
+            gens.append(huge_pairs(rng, 4 if quick else 40))
         for g in gens:
             for kind, x, y in g:
                 if ot and (len(x) > 16 or len(x) < 2):
